@@ -79,7 +79,7 @@ pub fn iter_adaptors(_args: &[String]) -> String {
             let n = if back { (0..3u64).progress_with(pb.clone()).rev().count() } else { (0..3u64).progress_with(pb.clone()).count() };
             tried += 1;
             if n != 3 || !pb.is_finished() {
-                return fail("C17 exhaustion of the wrapped iterator finishes the bar (every configured finish behaviour)", format!("with_finish(variant {}) {} iteration of 3 items: items {} finished {}", fb, if back { "backward" } else { "forward" }, n, pb.is_finished()));
+                return fail("C17/C04 exhaustion of the wrapped iterator finishes the bar (every configured finish behaviour)", format!("with_finish(variant {}) {} iteration of 3 items: items {} finished {}", fb, if back { "backward" } else { "forward" }, n, pb.is_finished()));
             }
         }
     }
